@@ -48,8 +48,56 @@ pub fn gen_payload(rng: &mut Rng, tag: &str, allow_binary: bool, newline_termina
     outs
 }
 
+/// A stalled disk under a chatty group: the first write to some stdout archive takes 4 s; meanwhile a
+/// dozen tasks keep producing a line every few milliseconds (so the compressor's queue fills and readers
+/// block behind it), write their last lines and exit while everything downstream is still stuck.
+fn gen_disk_stall(rng: &mut Rng) -> LogWorldScenario {
+    let nt = rng.range(10, 13);
+    let mut targets = vec![];
+    let mut cmd_files = vec![];
+    for i in 0..nt {
+        let path = format!("t{:02}", i);
+        cmd_files.push(CmdFile { target: path.clone(), command: "build".into(), rel: WorldSpec::default_cmd_rel(&path, "build"), exec: true, broken: false });
+        targets.push(TargetSpec { path, ..Default::default() });
+    }
+    let spec = WorldSpec { targets, cmd_files, files: vec![], sequences: vec![], max_retained_runs: 2, gitignore: vec![], git: false };
+    let mut script = RunScript::simple(RunOpts { commands: vec!["build".into()], ..Default::default() });
+    let rounds = rng.range(105, 130);
+    for (ti, cf) in spec.cmd_files.iter().enumerate() {
+        let mut outs = vec![];
+        if ti == 0 {
+            // the pump: enough poorly compressible bytes for the encoder to emit its first block
+            let mut v = Vec::new();
+            let mut n = 0;
+            while v.len() < 300 * 1024 {
+                n += 1;
+                v.extend_from_slice(format!("build@{} fd1 pump{} ", cf.target, n).as_bytes());
+                for _ in 0..100 {
+                    v.push(b"ABCDEFGHIJKLMNOPQRSTUVWXYZabcdefghijklmnopqrstuvwxyz0123456789+/"[(rng.next_u64() & 63) as usize]);
+                }
+                v.push(b'\n');
+            }
+            outs.push(OutStep { fd: 1, hex: hex(&v), pause_ms: 0 });
+        }
+        for r in 0..rounds {
+            outs.push(OutStep { fd: 1, hex: hex(format!("build@{} fd1 #{} round\n", cf.target, r).as_bytes()), pause_ms: if ti == 0 { 5 } else { 0 } });
+        }
+        outs.push(OutStep { fd: 1, hex: hex(format!("build@{} fd1 last words\n", cf.target).as_bytes()), pause_ms: 0 });
+        script.behav.push(Behav { command: "build".into(), target: cf.target.clone(), outs, code: 0, exit_pause_ms: 0 });
+    }
+    script.strategy = Strategy::RoundRobin;
+    script.flush_ms = Some(5);
+    script.workers = Some(4);
+    script.rand_seed = Some(rng.next_u64() % 1_000_000);
+    script.fs_write_stall = Some("stdout.zst:1:4000".into());
+    LogWorldScenario { spec, script, shows: vec![(vec![], vec![], true, true)] }
+}
+
 fn gen_log_world(seed: u64, idx: usize) -> LogWorldScenario {
     let mut rng = Rng::new(scenario_seed(seed, "C08w", idx));
+    if rng.chance(1, 40) {
+        return gen_disk_stall(&mut rng);
+    }
     let nt = if rng.chance(1, 4) { rng.range(8, 16) } else { rng.range(1, 5) };
     let cmds: Vec<String> = if rng.chance(1, 2) { vec!["build".into()] } else { vec!["build".into(), "test".into()] };
     let mut targets = vec![];
@@ -211,6 +259,10 @@ fn exec_log_world(sc: &LogWorldScenario) -> Outcome {
         out.probe(&k, v);
     }
     out.sim_ms = sc.script.behav.iter().flat_map(|b| b.outs.iter().map(|o| o.pause_ms as u64)).sum();
+    if sc.script.fs_write_stall.is_some() {
+        out.fault("disk_stalled_for_seconds_under_a_chatty_group", 1);
+        out.sim_ms += 4000;
+    }
     let scripted_failure = sc.script.behav.iter().any(|b| b.code != 0);
     let want_code = if scripted_failure { 1 } else { 0 };
     if tr.hang.is_some() || tr.code() != Some(want_code) {
